@@ -429,3 +429,63 @@ func (p *Prog) IDominates(a, b ssa.Instruction, top *ssa.Function) bool {
 	}
 	return true
 }
+
+// Bind resolves a parameter of a private helper that has exactly one call site
+// to the argument passed there (transitively); any other value is returned
+// unchanged.
+func (p *Prog) Bind(v ssa.Value) ssa.Value {
+	for i := 0; i < 4; i++ {
+		prm, ok := v.(*ssa.Parameter)
+		if !ok {
+			return v
+		}
+		h := prm.Parent()
+		if !p.PrivateHelper(h) {
+			return v
+		}
+		sites := p.Callers(h)
+		idx := paramIdx(prm)
+		if len(sites) != 1 || idx < 0 || idx >= len(sites[0].Common().Args) {
+			return v
+		}
+		v = sites[0].Common().Args[idx]
+	}
+	return v
+}
+
+// InRegion reports whether g is f, a literal nested in f, or one of f's private helpers.
+func (p *Prog) InRegion(g, f *ssa.Function) bool {
+	for _, x := range p.Region(f) {
+		if x == g {
+			return true
+		}
+	}
+	return false
+}
+
+// GeneratedBody returns the function literal that Redefine (or one of its
+// private helpers) hands to reflect.MakeFunc: the body of the redefined function.
+func (p *Prog) GeneratedBody() *ssa.Function {
+	rd := p.MustRole("Redefine")
+	if rd == nil {
+		return nil
+	}
+	var body *ssa.Function
+	n := 0
+	for _, ci := range p.RegionCalls(rd, "reflect.MakeFunc") {
+		for _, src := range p.ISources(ci.Common().Args[1]) {
+			switch x := src.(type) {
+			case *ssa.MakeClosure:
+				body, _ = x.Fn.(*ssa.Function)
+				n++
+			case *ssa.Function:
+				body = x
+				n++
+			}
+		}
+	}
+	if n != 1 {
+		return nil
+	}
+	return body
+}
